@@ -72,7 +72,7 @@ prop("C03", quick={"runs": 1000000}, thorough={"runs": 100000000, "budget_s": 90
      rule="The decision table is enumerated completely: entry state {absent, fresh, stale within MaxStaleness, stale beyond} x failure "
      "cached {no, yes} x SyncUpdate x FailHard x MaxStaleness {0, set} x FailedUpdateTTL {default, -1} x builder {ok, error} x "
      "flavour {Failover/ShardedMap, Failover/SyncMap, FailoverOf/ShardedMapOf, Failover/ShardedMapOf[any], FailoverOf[any]/SyncMap} x 3 clock offsets x SyncRead, "
-     "plus (at the middle offset) a nil cached value on the untyped flavours and a decorating backend that wraps every read error with %w, minus impossible cells (7680 cells); in 15 % of the stale cells (chosen per seed) the backend reports the expired entry with the bare ErrExpired sentinel, without the item, which makes it as good as absent; "
+     "plus (at the middle offset) a nil cached value on the untyped flavours and a decorating backend that wraps every read error with %w, minus impossible cells (7680 cells); in 15 % of the stale cells (chosen per seed) the backend reports the expired entry with the bare ErrExpired sentinel, without the item, which makes it as good as absent, and in 15 % another part of the application calls ExpireAll right before the Get (an entry that had expired keeps its age); "
      "each cell is reached by driving the simulated clock, the builder sleeps 1 s of simulated time so that 'Get returned before/after "
      "the build finished' is observable. Every cell is non-trivial; distinct = distinct (cell, schedule). Thorough repeats all cells "
      "40 times under different schedules, jitter extremes, logger/stats on.",
@@ -112,7 +112,7 @@ BE_RULE = ("Backend scenarios (keys incl. empty, 1-byte, 300-byte, binary, commo
 prop("C07", quick={"runs": 16000}, thorough={"runs": 100000000, "budget_s": 600},
      rule=BE_RULE + "One client issues 1-40 operations with clock jumps from ns to days; each result is compared with a reference "
      "map with per-entry expiry intervals; Walk callbacks and Dump writers fail at chosen positions and the sequence goes on. Non-trivial: >= 2 operations; distinct = distinct (scenario, schedule signature).",
-     rules=["C07.<op>: Read/Load/Delete/Len/Walk results equal the reference map's; ExpireAll expires everything incl. never-expiring; "
+     rules=["C07.<op>: Read/Load/Delete/Len/Walk results equal the reference map's; ExpireAll expires everything incl. never-expiring and leaves the expiry of what had expired before untouched; "
             "expired reads carry value and expiry instant", "C07.walkErr / dumpErr: a failing callback / writer stops the walk, its error and the count of completed callbacks are returned", "C07.walkDel: a Walk callback may delete the entry it is shown (re-entrant use), the walk still visits every entry once",
             "C07.STUCK an operation of the sequence never returns (scheduler state, not a timeout)", "C07.PANIC an operation panicked",
             "C07.retained an ErrExpired handed out earlier still carries the value it was created for at the end of the run"],
